@@ -59,13 +59,10 @@ Definition doc_value_mismatches : list (list N * list N) :=
     | None => [(fst ng, [])]
     end) cpp_documented_groups.
 
-(* known documentation defect F-DOC-STDGROUP: c++17-pmr / allocator_include is "<memory>" in the docs, "<memory_resource>" applied *)
-Definition known_doc_mismatch (m : list N * list N) : bool :=
-  str_eqb (fst m) [99; 43; 43; 49; 55; 45; 112; 109; 114]
-  && str_eqb (snd m) [97; 108; 108; 111; 99; 97; 116; 111; 114; 95; 105; 110; 99; 108; 117; 100; 101].
+(* (the documentation defect F-DOC-STDGROUP, c++17-pmr / allocator_include, was fixed in 544e429: no exemption is left) *)
 
 Theorem documented_group_values_agree :
-  forallb known_doc_mismatch doc_value_mismatches = true
+  doc_value_mismatches = []
   /\ length cpp_documented_groups = length cpp_std_groups
   /\ forallb (fun ng => dmem (fst ng) cpp_documented_groups) cpp_std_groups = true.
 Proof. vm_compute. auto. Qed.
@@ -89,3 +86,33 @@ Theorem shorthand_group_overrides_even_later_explicit :
   /\ lookup [sh_sec; key_options; cpp_key_alloc] merged = Some (Leaf false (AStr [109]))
   /\ exists v, effective_option LkCpp (cv_items merged) sh_sec cpp_key_alloc = Some v /\ v <> Leaf false (AStr [109]).
 Proof. vm_compute. repeat split; try reflexivity. eexists. split; [reflexivity|discriminate]. Qed.
+
+(* ---- _strip_default_markers: after it no DefaultValue marker is left at any depth ------------------------- *)
+Lemma all_explicit_node m : all_explicit (Node m) = forallb (fun kv => all_explicit (snd kv)) m.
+Proof.
+  cbn [all_explicit]. induction m as [|[k x] m IH]; [reflexivity|]. cbn [forallb snd]. rewrite <- IH. reflexivity.
+Qed.
+
+Lemma strip_markers_explicit v : all_explicit (strip_markers v) = true.
+Proof.
+  induction v as [d a|m IH] using cv_ind'; [reflexivity|].
+  cbn [strip_markers]. rewrite all_explicit_node, forallb_forall. intros kv Hin.
+  apply in_map_iff in Hin as (kv0 & <- & Hin0). cbn [snd].
+  rewrite Forall_forall in IH. apply IH, Hin0.
+Qed.
+
+Theorem stripped_sections_have_no_markers s : all_explicit (Node (strip_sections s)) = true.
+Proof.
+  unfold strip_sections. rewrite all_explicit_node, forallb_forall. intros kv Hin.
+  apply in_map_iff in Hin as (kv0 & <- & _). apply strip_markers_explicit.
+Qed.
+
+(* value-wise the stripping only removes the marking *)
+Lemma strip_markers_lookup p : forall v, lookup p (strip_markers v) = option_map strip_markers (lookup p v).
+Proof.
+  induction p as [|k p IH]; intros v; [reflexivity|].
+  destruct v as [d a|m]; [reflexivity|]. cbn [strip_markers lookup].
+  assert (G : dget k (map (fun kv => (fst kv, strip_markers (snd kv))) m) = option_map strip_markers (dget k m)).
+  { induction m as [|[k' x] m IHm]; [reflexivity|]. cbn [map dget fst snd]. destruct (str_eqb k k'); [reflexivity|exact IHm]. }
+  rewrite G. destruct (dget k m); [apply IH|reflexivity].
+Qed.
